@@ -353,7 +353,10 @@ def check_history(r, shared_ids, want_final=True):
     # shared creation: one flag value wins, exactly the calls asking for it succeed
     for dbid, lst in created.items():
         oks = [x for x in lst if x[1].startswith("ok")]
-        flg = set(int(x[1].split("flg=")[1]) for x in oks)
+        flg = set(int(x[1].split("flg=")[1].split()[0]) for x in oks)
+        if any(" same=0" in x[1] for x in oks):
+            probs.append(("db-create", "iwkv_db(%d) handed out two different handles for one database id (the database was created twice): %s" % (
+                dbid, [(x[0], x[1]) for x in lst])))
         if dbid in (1, 2):
             flg.add(0)
         if len(flg) > 1 or (lst and not flg):
